@@ -253,6 +253,10 @@ def mon_requests_responses(ctx, conn, skip_sids=(), require_complete=True, intac
                                                             want=[(k.hex(), v.hex()) for k, v in want][:20]), known_class=cls)
         if torn:
             continue
+        if r["kind"].endswith(":x"):
+            # the handler's body reader fails after its chunks: the response is cut short with RST_STREAM, there is no
+            # END_STREAM to wait for (what went out before is still within the body: checked by the ledger monitors)
+            continue
         if g["after_es"]:
             viol(ctx, conn, "frames-after-end-stream", dict(sid=sid))
         if g["dlen"] != len(r["body"]):
